@@ -107,10 +107,24 @@ func (st *SplitTracker) AvailableSplits() []SourceSplitterShard {
 	return available
 }
 
+// AssignedSplitsWithLastID returns the assigned splits together with the
+// LastAssignedSplitID that belongs to them (one consistent view for a
+// checkpoint).
+func (st *SplitTracker) AssignedSplitsWithLastID() ([]SourceSplitterShard, string) {
+	st.mu.Lock()
+	defer st.mu.Unlock()
+
+	return st.assignedSplitsLocked(), st.LastAssignedSplitID
+}
+
 func (st *SplitTracker) AssignedSplits() []SourceSplitterShard {
 	st.mu.Lock()
 	defer st.mu.Unlock()
 
+	return st.assignedSplitsLocked()
+}
+
+func (st *SplitTracker) assignedSplitsLocked() []SourceSplitterShard {
 	assigned := make([]SourceSplitterShard, 0, len(st.assignedSplits))
 	for _, shardID := range slices.Sorted(maps.Keys(st.assignedSplits)) {
 		knownShard, _ := st.knownSplits.Get(shardID)
